@@ -112,6 +112,70 @@ def check_pool_tie(c, rec):
         raise Violation("subgradient", f"max_pool1d: total gradient {tot.tolist()} != total g {want.tolist()}; {c}")
 
 
+# ---- the same tensor as data AND kernel of a convolution (auto-correlation) -------------------------------
+@st.composite
+def self_conv_cases(draw):
+    dims = draw(st.sampled_from([1, 2, 0]))           # 0: linear(x, x) with a square x
+    n, ci = draw(st.integers(1, 3)), draw(st.integers(1, 2))
+    k = [draw(st.integers(1, 3)) for _ in range(dims)]
+    shp = [n, ci] + k if dims else [n, n]
+    return {"dims": dims, "shape": shp, "v": draw(gen.grid(shp, -16, 16)), "p": [draw(st.integers(0, 2)) for _ in range(dims)],
+            "s": [draw(st.integers(1, 2)) for _ in range(dims)], "form": draw(st.sampled_from(["fn", "module"])),
+            "bias": draw(st.booleans()), "g": draw(gen.upstream()), "dtype": draw(gen.DTYPES)}
+
+
+def check_self_conv(c, rec):
+    from .. import fd
+    dt = np.dtype(c["dtype"])
+    dims = c["dims"]
+    s_ = c["s"][0] if dims == 1 else tuple(c["s"])
+    p_ = c["p"][0] if dims == 1 else tuple(c["p"])
+    bias_v = np.arange(c["shape"][0], dtype=np.float64) / 4.0 - 0.5
+
+    def forward(x, b=None):
+        if dims == 0:
+            if c["form"] == "module":
+                m = sg.nn.Linear(x.shape[1], x.shape[0], bias=c["bias"])
+                m.weight = x
+                if c["bias"]:
+                    m.bias = b
+                return m(x)
+            return F.linear(x, x, b)
+        if c["form"] == "module":
+            cls = sg.nn.Conv1d if dims == 1 else sg.nn.Conv2d
+            m = cls(x.shape[1], x.shape[0], x.shape[2] if dims == 1 else (x.shape[2], x.shape[3]), s_, p_, bias=c["bias"])
+            m.weight = x
+            if c["bias"]:
+                m.bias = b
+            return m(x)
+        return (F.conv1d if dims == 1 else F.conv2d)(x, x, b, s_, p_)
+
+    x = gen.arr(c["v"], c["shape"], dt)
+    t = Tensor(x.copy(), requires_grad=True)
+    b = Tensor(bias_v.astype(dt), requires_grad=True) if c["bias"] else None
+    try:
+        out = forward(t, b)
+    except Exception:  # noqa: BLE001
+        rec.skip = "forward_rejected"
+        return
+    rec.nontrivial(out.data.size >= 2)
+    rec.tag(f"conv{dims}d" if dims else "linear", c["form"])
+    g = gen.cyc(c["g"], out.shape, dt)
+    try:
+        out.backward(Tensor(g.copy()))
+    except Exception as e:  # noqa: BLE001
+        raise Violation("backward_raised", f"{'linear' if not dims else 'conv'}(x, x): backward raised {type(e).__name__}: {e}; {c}")
+
+    def f64(xs):
+        return np.asarray(forward(Tensor(xs[0].copy()), Tensor(bias_v.copy()) if c["bias"] else None).data)
+
+    want = fd.fd_vjp(f64, [x.astype(np.float64)], g, [0])[0]
+    ok, err, sc = fd.close(t.grad.data, want, dt)
+    if not ok:
+        raise Violation("grad_value", f"{'linear' if not dims else f'conv{dims}d'} with the SAME tensor as data and weight: gradient "
+                                      f"differs from the finite-difference VJP of x -> op(x, x) by {err:.3e} (scale {sc:.3g}); {c}")
+
+
 def _no_offset(c):
     # finite differences through data sitting 1e4 away from its spread are too noisy for a 1e-5 comparison;
     # the offset batch-norm data is used by the forward-value check (C06) and the history check (C13) only
@@ -127,6 +191,7 @@ def subchecks():
         strat = (lambda op=op: ops.full_case(op).map(_no_offset)) if op.name == "batch_norm" else (lambda op=op: ops.full_case(op))
         subs.append(SubCheck(op.name, gradcheck.make_check(op), strat,
                              quick=q, thorough=2000, shards_quick=2, shards_thorough=4))
+    subs.append(SubCheck("conv_same_tensor", check_self_conv, self_conv_cases, quick=200, thorough=2500))
     subs.append(SubCheck("relu_kinks", check_relu_kink, relu_kink_cases, quick=300, thorough=4000))
     subs.append(SubCheck("pool_ties", check_pool_tie, pool_tie_cases, quick=300, thorough=4000))
     return subs
